@@ -212,48 +212,18 @@ func (r *Run) checkArms(ld *Loaded, encs []Encoding, comps func(e Encoding) map[
 		}
 		encs = f
 	}
-	gen := func(useContracts bool, encs []Encoding) []*VC {
-		vcs := make([]*VC, len(encs))
-		var wg sync.WaitGroup
-		sem := make(chan struct{}, 16)
-		var mu sync.Mutex
-		for i, e := range encs {
-			wg.Add(1)
-			sem <- struct{}{}
-			go func(i int, e Encoding) {
-				defer wg.Done()
-				defer func() { <-sem }()
-				vc, err := ld.armVC(e, armOpts{useContracts: useContracts, comps: comps, frame: frame, safety: safety, prop: r.Prop})
-				if err != nil {
-					mu.Lock()
-					r.engineErr = append(r.engineErr, err.Error())
-					mu.Unlock()
-					return
-				}
-				vcs[i] = vc
-			}(i, e)
-		}
-		wg.Wait()
-		var out []*VC
-		for _, v := range vcs {
-			if v != nil {
-				out = append(out, v)
-			}
-		}
-		return out
+	run := func(useContracts bool, encs []Encoding) []*OblResult {
+		return r.pipeline(len(encs), func(i int) (*VC, error) {
+			return ld.armVC(encs[i], armOpts{useContracts: useContracts, comps: comps, frame: frame, safety: safety, prop: r.Prop})
+		})
 	}
-	vcs := gen(true, encs)
-	res := r.discharge(vcs)
+	res := run(true, encs)
 	applied, inlined := 0, 0
-	for _, v := range vcs {
-		applied += v.Exec.applied
-		inlined += v.Exec.inlined
-	}
-	r.Notes["contract_applications"] = applied
-	r.Notes["inlined_calls"] = inlined
 	var retry []Encoding
 	byEnc := map[string]*OblResult{}
 	for _, o := range res {
+		applied += o.applied
+		inlined += o.inlined
 		if o.Status == "discharged" {
 			r.add(o)
 		} else {
@@ -261,11 +231,11 @@ func (r *Run) checkArms(ld *Loaded, encs []Encoding, comps func(e Encoding) map[
 			byEnc[o.vc.Replay.Enc.String()] = o
 		}
 	}
+	r.Notes["contract_applications"] = applied
+	r.Notes["inlined_calls"] = inlined
 	if len(retry) > 0 && applied > 0 {
 		// call rule 2: re-verify against the callees' bodies
-		vcs2 := gen(false, retry)
-		res2 := r.discharge(vcs2)
-		for _, o := range res2 {
+		for _, o := range run(false, retry) {
 			if o.Status == "discharged" {
 				r.Stale = append(r.Stale, o.Name+": discharged only against callee bodies (a helper contract is weaker than its body)")
 			}
